@@ -1081,6 +1081,7 @@ def build_fn(ctx, unit, fs):
     # N9: impl Trait params -> named generics
     if fs.opts.get("n9") and not arm:
         # n9=pos:P  (param name : generic name)
+        n9_generics = []
         for spec in fs.opts["n9"].split(","):
             pname, gname = spec.split(":")
             popen = q + 2
@@ -1107,13 +1108,14 @@ def build_fn(ctx, unit, fs):
                         j += 1
                     bound = sf.text[toks[kk + 3].start:toks[j - 1].end]
                     edits.append(Edit(toks[kk + 2].start, toks[j - 1].end, gname))
-                    edits.append(Edit(toks[q + 1].end, toks[q + 1].end, f"<{gname}: {bound}>"))
+                    n9_generics.append(f"{gname}: {bound}")
                     ctx.fire("N9", sf, toks[kk].start, f"{pname}: impl {bound} -> {gname}")
                     done = True
                     break
                 kk += 1
             if not done:
                 raise LostAnchor(f"{fs.path}: N9 parameter {pname} not found")
+        edits.append(Edit(toks[q + 1].end, toks[q + 1].end, "<" + ", ".join(n9_generics) + ">"))
     # T6: opaque parameter type: pty=name:Type (the parameter's type is outside Verus; every use of it in the body
     # must be covered by an O1 rewrite, otherwise rustc rejects the unit)
     if fs.opts.get("pty") and not arm:
